@@ -38,6 +38,16 @@ def confirm(item):
             return res
         patch = os.path.join(d, 'patch.diff')
         demo = os.path.join(d, 'demo.py')
+        benign = False
+        mp0 = os.path.join(d, 'meta.json')
+        if os.path.exists(mp0):
+            try:
+                benign = json.load(open(mp0)).get('kind') == 'benign'
+            except Exception:
+                pass
+        if benign:
+            # a behaviour-preserving edit: confirmed with the demonstration of the sibling breaking change (<prop>/g/demo.py)
+            demo = os.path.join(os.path.dirname(d), 'g', 'demo.py')
         rc, out = sh(['git', 'apply', '--check', patch], cwd=wt)
         if rc:
             res['why'] = 'patch does not apply: ' + out[-200:]
@@ -51,12 +61,14 @@ def confirm(item):
         rc1, out1 = sh([PY, demo, wt], cwd=wt, timeout=600)
         res.update({'clean_demo_rc': rc0, 'patched_demo_rc': rc1, 'tests_75_pass': passed,
                     'patched_demo_tail': out1.strip().split('\n')[-3:], 'clean_demo_tail': out0.strip().split('\n')[-2:]})
-        res['ok'] = (rc0 == 0 and rc1 == 1 and passed)
+        res['ok'] = (rc0 == 0 and rc1 == (0 if benign else 1) and passed)
+        res['benign'] = benign
         if res['ok']:
-            out_d = os.path.join(DST, name)
+            out_d = os.path.join(DST, 'benign', name) if benign else os.path.join(DST, name)
             os.makedirs(out_d, exist_ok=True)
             shutil.copy2(patch, os.path.join(out_d, 'patch.diff'))
-            shutil.copy2(demo, os.path.join(out_d, 'demo.py'))
+            if not benign:
+                shutil.copy2(demo, os.path.join(out_d, 'demo.py'))
             meta = {}
             mp = os.path.join(d, 'meta.json')
             if os.path.exists(mp):
@@ -90,7 +102,8 @@ def main():
             continue
         for k in sorted(os.listdir(pd)):
             d = os.path.join(pd, k)
-            if os.path.exists(os.path.join(d, 'patch.diff')) and os.path.exists(os.path.join(d, 'demo.py')):
+            if os.path.exists(os.path.join(d, 'patch.diff')) and (os.path.exists(os.path.join(d, 'demo.py'))
+                                                                   or os.path.exists(os.path.join(pd, 'g', 'demo.py'))):
                 if len(sys.argv) > 2 and sys.argv[2] not in prop:
                     continue
                 if os.environ.get('SEED_KS') and k not in os.environ['SEED_KS'].split(','):
